@@ -1,14 +1,235 @@
-//! Suite `fmt` (stub: replaced by the owner of the suite).
+//! Suite `fmt`: the formatter of `varlink_parser` (C10).
+//!
+//! Case input:
+//!   (fmt <width> x<text>)      format the definition parsed from <text> at that width
+//!   (fmt1 x<text>)             the width-independent renderings
+//!   (cli <width> <color t|f> x<text>)   `varlink --color=on|off format -c <width> FILE`
+//!
+//! Observation (REAL code; colour forced on for the colored twins):
+//!   (fmt <dump of the parsed definition> x<get_multiline(0,w)> x<get_multiline_colored(0,w)>
+//!        <dump of IDL::try_from(get_multiline(0,w)) | (parse-error ..) | (idl-error ..)>
+//!        <second formatting of the re-parsed definition == first: t|f>)
+//!   (fmt1 x<get_oneline()> x<get_oneline_colored()> x<to_string()>)
+//!   (cli <exit code> x<stdout>)
+//!   (unparsable)               the case text is not a definition
+use super::idl::{decorate, dump_idl, gen_idl, gen_valid_text, observe, render_idl, repo_idl_files};
+use crate::rng::Rng;
 use crate::sx::{self, Sx};
 use crate::{Case, Ctx, Suite};
+use std::convert::TryFrom;
+use varlink_parser::{Format, FormatColored, IDL};
 
 pub struct FmtSuite;
 
+fn case_fmt(w: usize, text: &str, tags: &[&str]) -> Case {
+    Case {
+        input: sx::tagged("fmt", vec![sx::nat(w), sx::xs(text)]),
+        tags: tags.iter().map(|s| s.to_string()).collect(),
+    }
+}
+
+fn case_fmt1(text: &str, tags: &[&str]) -> Case {
+    Case { input: sx::tagged("fmt1", vec![sx::xs(text)]), tags: tags.iter().map(|s| s.to_string()).collect() }
+}
+
+fn case_cli(w: usize, color: bool, text: &str) -> Case {
+    Case {
+        input: sx::tagged("cli", vec![sx::nat(w), sx::boolean(color), sx::xs(text)]),
+        tags: vec!["cli".into(), format!("cli:color={}", color)],
+    }
+}
+
+fn width_tag(w: usize) -> &'static str {
+    match w {
+        0 => "width:0",
+        1..=20 => "width:1-20",
+        21..=60 => "width:21-60",
+        61..=100 => "width:61-100",
+        101..=200 => "width:101-200",
+        _ => "width:huge",
+    }
+}
+
+const HUGE: &[usize] = &[201, 1000, 1_000_000, usize::MAX - 7, usize::MAX];
+
 impl Suite for FmtSuite {
-    fn generate(&self, _ctx: &Ctx) -> Vec<Case> {
-        Vec::new()
+    fn generate(&self, ctx: &Ctx) -> Vec<Case> {
+        let mut rng = Rng::new(ctx.seed);
+        let mut cases = Vec::new();
+        if let Ok(txt) = std::fs::read_to_string(concat!(env!("CARGO_MANIFEST_DIR"), "/corpus/fmt.txt")) {
+            for l in txt.lines() {
+                if let Some(s) = sx::parse(l) {
+                    cases.push(Case { input: s, tags: vec!["corpus".into()] });
+                }
+            }
+        }
+        // (1) a few definitions at EVERY width 0..=200 and the huge ones
+        let n_full = if ctx.thorough { 60 } else { 14 };
+        let mut full: Vec<String> = Vec::new();
+        for (_, s) in repo_idl_files() {
+            if s.len() < 600 || ctx.thorough {
+                full.push(s);
+            }
+        }
+        for i in 0..n_full {
+            full.push(gen_valid_text(&mut rng, 5, 3, i % 3).1.concat());
+        }
+        for t in &full {
+            cases.push(case_fmt1(t, &["fmt1"]));
+            for w in (0..=200).chain(HUGE.iter().cloned()) {
+                cases.push(case_fmt(w, t, &["all-widths", width_tag(w)]));
+            }
+        }
+        // (2) many definitions at sampled widths (dense near small widths where most thresholds lie)
+        let n_sampled = if ctx.thorough { 2500 } else { 450 };
+        for i in 0..n_sampled {
+            let depth = if i % 7 == 0 { 4 } else { 2 };
+            let t = gen_valid_text(&mut rng, 6, depth, i % 3).1.concat();
+            if i % 5 == 0 {
+                cases.push(case_fmt1(&t, &["fmt1"]));
+            }
+            let k = if ctx.thorough { 14 } else { 8 };
+            for _ in 0..k {
+                let w = match rng.below(10) {
+                    0 => 0,
+                    1..=3 => rng.range(1, 40),
+                    4..=6 => rng.range(41, 100),
+                    7..=8 => rng.range(101, 200),
+                    _ => *rng.pick(HUGE),
+                };
+                cases.push(case_fmt(w, &t, &["sampled-widths", width_tag(w)]));
+            }
+        }
+        // (3) the remaining repository definitions at sampled widths
+        for (_, s) in repo_idl_files() {
+            if s.len() >= 600 && !ctx.thorough {
+                cases.push(case_fmt1(&s, &["fmt1"]));
+                for w in [0usize, 1, 10, 20, 30, 40, 50, 60, 70, 79, 80, 81, 90, 100, 120, 150, 200, usize::MAX] {
+                    cases.push(case_fmt(w, &s, &["repo-file", width_tag(w)]));
+                }
+            }
+        }
+        // (4) definitions whose members sit exactly at a threshold: one-field structs with a name of every length
+        for len in 1..(if ctx.thorough { 60 } else { 24 }) {
+            let name: String = std::iter::repeat('a').take(len).collect();
+            let t = format!(
+                "interface a.b\ntype T ({n}: int)\nmethod M({n}: int) -> ({n}: int, b: (c: ?[]{N}))\nerror E ({n}: (x, y))\nmethod N() -> ()\nmethod O({n}: string) -> ()",
+                n = name,
+                N = "Tt"
+            );
+            for w in (len + 5)..(len + 40) {
+                cases.push(case_fmt(w, &t, &["threshold", width_tag(w)]));
+            }
+        }
+        // (5) documentation blocks: tabs, carriage returns, escape sequences, blank lines, all eol kinds
+        let docs = [
+            "# one\n", "\t# tab before\n", "# a\n\n# b\n", "# cr\r# cr2\r\n", "# ls\u{2028}# ps\u{2029}", "#\n", "\t\n", " \t \n",
+            "# \u{1b}[0m reset inside\n", "# \u{1b}[0m\u{1b}[0m twice\n", "# half \u{1b}[3\n", "# half \u{1b}[\n", "# half \u{1b}\n",
+            "# \u{1b}[31mred\u{1b}[0m\n", "# trailing space   \n", "#\ttab inside\t\n", "# \u{00a0}nbsp \u{3000}\n", "# 0m\n#[0m\n",
+            "# \u{1b}[0\u{1b}[0m\n", "# \u{1b}\u{1b}[0m[0m\n",
+        ];
+        for (k, d) in docs.iter().enumerate() {
+            let t = format!("{d}interface a.b\n{d}type T (a: int)\n{d}method M() -> ()\n{d}error E ()\n", d = d);
+            cases.push(case_fmt1(&t, &["fmt1", "docs"]));
+            for w in [0usize, 10, 80, 200] {
+                cases.push(case_fmt(w, &t, &["docs", width_tag(w)]));
+            }
+            let _ = k;
+        }
+        // (6) members of the three kinds interleaved (the formatter regroups them by kind)
+        for _ in 0..(if ctx.thorough { 300 } else { 60 }) {
+            let g = gen_idl(&mut rng, 8, 1);
+            let t = decorate(&mut rng, &render_idl(&g), 1).concat();
+            for w in [0usize, 30, 80] {
+                cases.push(case_fmt(w, &t, &["interleaved", width_tag(w)]));
+            }
+        }
+        // (7) the command-line tool
+        if std::path::Path::new(&cli_path()).exists() {
+            for i in 0..(if ctx.thorough { 60 } else { 12 }) {
+                let t = gen_valid_text(&mut rng, 4, 2, i % 3).1.concat();
+                for w in [0usize, 40, 80] {
+                    cases.push(case_cli(w, i % 2 == 0, &t));
+                }
+            }
+        }
+        cases
     }
-    fn run(&self, _ctx: &Ctx, _input: &Sx) -> Sx {
-        sx::atom("stub")
+
+    fn setup(&self, _ctx: &Ctx) {
+        // colored decides once, on first use, from the environment: force colour on
+        std::env::remove_var("NO_COLOR");
+        std::env::set_var("CLICOLOR_FORCE", "1");
     }
+
+    fn run(&self, ctx: &Ctx, input: &Sx) -> Sx {
+        let l = match input.as_list() {
+            Some(l) if !l.is_empty() => l,
+            _ => return sx::atom("bad-case"),
+        };
+        match (l[0].as_atom(), l.len()) {
+            (Some("fmt"), 3) => {
+                let (w, text) = match (l[1].as_atom().and_then(|a| a.parse::<usize>().ok()), l[2].as_str()) {
+                    (Some(w), Some(t)) => (w, t),
+                    _ => return sx::atom("bad-case"),
+                };
+                let idl = match IDL::try_from(text.as_str()) {
+                    Ok(i) => i,
+                    Err(_) => return sx::list(vec![sx::atom("unparsable")]),
+                };
+                let plain = idl.get_multiline(0, w);
+                let colored = idl.get_multiline_colored(0, w);
+                let (re, second) = match IDL::try_from(plain.as_str()) {
+                    Ok(i2) => (dump_idl(&i2, &plain), i2.get_multiline(0, w) == plain),
+                    Err(_) => (observe(&plain), false),
+                };
+                sx::tagged("fmt", vec![dump_idl(&idl, &text), sx::xs(&plain), sx::xs(&colored), re, sx::boolean(second)])
+            }
+            (Some("fmt1"), 2) => {
+                let text = match l[1].as_str() {
+                    Some(t) => t,
+                    None => return sx::atom("bad-case"),
+                };
+                let idl = match IDL::try_from(text.as_str()) {
+                    Ok(i) => i,
+                    Err(_) => return sx::list(vec![sx::atom("unparsable")]),
+                };
+                sx::tagged(
+                    "fmt1",
+                    vec![sx::xs(&idl.get_oneline()), sx::xs(&idl.get_oneline_colored()), sx::xs(&idl.to_string())],
+                )
+            }
+            (Some("cli"), 4) => {
+                let (w, color, text) = match (l[1].as_atom().and_then(|a| a.parse::<usize>().ok()), l[2].as_opt_bool(), l[3].as_str()) {
+                    (Some(w), Some(Some(c)), Some(t)) => (w, c, t),
+                    _ => return sx::atom("bad-case"),
+                };
+                let path = format!("{}/fmt-cli-case.varlink", ctx.out_dir);
+                std::fs::write(&path, text.as_bytes()).expect("write case file");
+                let out = std::process::Command::new(cli_path())
+                    .arg(if color { "--color=on" } else { "--color=off" })
+                    .arg("format")
+                    .arg("-c")
+                    .arg(format!("{}", w))
+                    .arg(&path)
+                    .env("CLICOLOR_FORCE", "1")
+                    .env_remove("NO_COLOR")
+                    .output()
+                    .expect("run varlink");
+                let _ = std::fs::remove_file(&path);
+                sx::tagged(
+                    "cli",
+                    vec![sx::int(out.status.code().unwrap_or(-1) as i64), sx::xs(&String::from_utf8_lossy(&out.stdout))],
+                )
+            }
+            _ => sx::atom("bad-case"),
+        }
+    }
+}
+
+fn cli_path() -> String {
+    // built by ./check through spec.repo_bins into the same target directory as the harness
+    let exe = std::env::current_exe().ok();
+    let dir = exe.as_ref().and_then(|p| p.parent()).map(|p| p.to_path_buf()).unwrap_or_default();
+    dir.join("varlink").to_string_lossy().into_owned()
 }
